@@ -126,16 +126,19 @@ PROPS['C13'] = {
 PROPS['C11'] = {
     'title': 'line_intersection classifies and locates segment crossings exactly',
     'level': 'proof',
-    'verus': [],
+    'verus': ['c11_classify'],
+    'twins': {'C11.V.line_intersection': r'^c11_k_classification', 'C11.V.collinear_intersection': r'^c11_k_classification'},
     'kani': [
         ('geo', 'c11.rs', r'^c11_k_(classification_lat3|order_invariance)$', 'complete', 'quick'),
         ('geo', 'c11_private.rs', r'^c11_k_nearest_endpoint', 'complete', 'quick'),
         ('geo', 'c02.rs', r'^c02_k_line_line$', 'complete', 'quick'),
         ('geo', 'c11.rs', r'^c11_k_classification_lat5$', 'complete', 'thorough'),
     ],
-    'trusted': ['assumed contract of robust::orient2d (exact sign), stubbed by the shared oracle on the lattice',
+    'trusted': ['Verus unit c11_classify: exact-sign contract of RobustKernel::orient2d, Line::bounding_rect = componentwise min/max, Rect x Rect / Rect x Coord intersects (proved in c02_intersects), proper_intersection abstract; non-degenerate segments; scalars ordered like integers',
+                'assumed contract of robust::orient2d (exact sign), stubbed by the shared oracle on the lattice',
                 'loop-free harnesses over the whole lattice |c| <= 3 (quick) / 5 (thorough) of integer-valued f64 coordinates: complete for that domain only'],
     'undecided_clauses': [
+        'unbounded (Verus) part: that envelope rejection / strict same-side rejection imply the segments share no point is NOT proved in general (two classical facts about crossing segments), only on the lattice by the K harnesses',
         'proper point within a few ulps of the true crossing, and its containment in both envelopes through the real proper_intersection arithmetic (harness c11_k_proper_point_in_envelopes kept, not registered: float products / divisions time out at 900 s)',
         'inputs off the integer lattice (decided only through the opaque-scalar argument of C03)',
         'zero-length segments (excluded by precondition: line_intersection returns a zero-length Collinear for a point on a segment)',
